@@ -13,6 +13,15 @@ cd "$wt" || exit 2
 applies=true
 if ! git apply --3way "$seed/patch.diff" 2>/dev/null && ! git apply "$seed/patch.diff" 2>/dev/null; then applies=false; fi
 git reset -q
+if $applies && ! git -C "$wt" diff --quiet; then
+  # refresh the stored patch so that it applies to the current HEAD without a 3-way merge
+  git -C "$wt" diff > /tmp/cf-$name.rebased.diff
+  if ! cmp -s /tmp/cf-$name.rebased.diff "$seed/patch.diff"; then
+    [ -f "$seed/patch.orig.diff" ] || cp "$seed/patch.diff" "$seed/patch.orig.diff"
+    cp /tmp/cf-$name.rebased.diff "$seed/patch.diff"
+  fi
+  rm -f /tmp/cf-$name.rebased.diff
+fi
 demo=$(ls "$seed"/demo.py "$seed"/test_demo.py 2>/dev/null | head -1)
 run_demo() {
   if [[ "$demo" == *test_demo.py ]]; then
@@ -25,6 +34,12 @@ run_demo() {
 suite_rc=-1; suite_line=""; demo_with=-1; demo_without=-1; failed=""
 if $applies; then
   PYTHONPATH="$wt/src" timeout 1800 /venv/bin/python -m pytest -q -p no:cacheprovider --timeout=900 >/tmp/cf-$name.suite.log 2>&1; suite_rc=$?
+  # the TCP signaling tests bind a fixed port and clash when several suites run at once: re-run them alone under a lock
+  if [ $suite_rc -ne 0 ] && ! grep "^FAILED\|^ERROR" /tmp/cf-$name.suite.log | grep -v "test_contrib_signaling.py" | grep -q .; then
+    if PYTHONPATH="$wt/src" flock /tmp/verif-signaling.lock timeout 600 /venv/bin/python -m pytest -q -p no:cacheprovider tests/test_contrib_signaling.py >/tmp/cf-$name.sig.log 2>&1; then
+      suite_rc=0; sed -i '$ s/$/ (signaling tests re-run alone: passed)/' /tmp/cf-$name.suite.log
+    fi
+  fi
   suite_line=$(tail -1 /tmp/cf-$name.suite.log)
   failed=$(grep "^FAILED\|^ERROR" /tmp/cf-$name.suite.log | cut -d' ' -f2 | tr '\n' ' ')
   demo_with=$(run_demo with)
